@@ -213,7 +213,7 @@ def context(events, upto=None):
     return "+".join(kinds) or "none"
 
 
-def judge(out):
+def judge(out, pid="C16"):
     """-> (status, signature, what): status in ok | skip | violation | diverged | broken"""
     ev = out.events
     if any(e.get("ev") == "skip" for e in ev):
@@ -226,13 +226,13 @@ def judge(out):
     if verdict == "accepted":
         dv = [e for e in ev if e.get("ev") == "diverged"]
         if dv:
-            return "diverged", "C16/diverged/%s/exit=%s" % (dv[0].get("act"), context(ev)), \
+            return "diverged", "%s/diverged/%s/exit=%s" % (pid, dv[0].get("act"), context(ev)), \
                 "the proxy never took step %s of the behaviour (%s)" % (dv[0].get("act"), dv[0].get("why"))
         if not any(e.get("ev") == "end" for e in ev):
             return "broken", None, "recording has no end event: " + out.out[-800:]
         return "ok", None, None
     if verdict == "invariant":
-        return "violation", "C16/%s/exit=%s" % (detail, context(ev)), "invariant %s fails on the recorded execution" % detail
+        return "violation", "%s/%s/exit=%s" % (pid, detail, context(ev)), "invariant %s fails on the recorded execution" % detail
     # rejected by the model of the code
     idx = (detail or {}).get("unexplained", 0)
     dv = [e for e in ev if e.get("ev") == "diverged"]
@@ -240,22 +240,22 @@ def judge(out):
         # the first unexplained event happened long after the scheduler had begun to wait in vain for a step:
         # from then on the rig's own requests expire (a held poll times out after 30 s in the proxy's
         # transport), which says nothing about the proxy
-        return "diverged", "C16/diverged/%s/exit=%s" % (dv[0].get("act"), context([e for e in ev if e.get("t", 0) < dv[0].get("since", 0) + STALE_MS])), \
+        return "diverged", "%s/diverged/%s/exit=%s" % (pid, dv[0].get("act"), context([e for e in ev if e.get("t", 0) < dv[0].get("since", 0) + STALE_MS])), \
             "the proxy never took step %s of the behaviour (%s)" % (dv[0].get("act"), dv[0].get("why"))
     # ask the as-is model which property is at stake
     v2, d2, _ = pr.validate(ev, cap, out.plan["pattern"], out.plan["allow"], asis=True)
     if v2 == "invariant":
-        return "violation", "C16/%s/exit=%s" % (d2, context(ev, idx)), \
+        return "violation", "%s/%s/exit=%s" % (pid, d2, context(ev, idx)), \
             "recorded execution is not a behaviour of the model (event %s) and violates %s when both release paths are allowed" % (json.dumps((detail or {}).get("event")), d2)
     e = (detail or {}).get("event", {})
     if e.get("ev") == "poll" and isinstance(e.get("clients"), int):
         # the real poll request itself; compare it with the real token state the rig read at the same moment
         if e["clients"] % 8 != 0 or e["clients"] < 0:
-            return "violation", "C16/ReportedLoad/not-a-multiple-of-8", "poll request reports Clients=%s (tokens.count()=%s, len=%s)" % (e["clients"], e.get("count"), e.get("len"))
+            return "violation", "%s/ReportedLoad/not-a-multiple-of-8" % pid, "poll request reports Clients=%s (tokens.count()=%s, len=%s)" % (e["clients"], e.get("count"), e.get("len"))
         if e["clients"] > max(e.get("count", 0), e.get("len", 0)):
-            return "violation", "C16/ReportedLoad/exceeds-slots-in-use", \
+            return "violation", "%s/ReportedLoad/exceeds-slots-in-use" % pid, \
                 "poll request reports Clients=%s while %s slots are in use (tokens.count()=%s, len(ch)=%s)" % (e["clients"], e.get("len"), e.get("count"), e.get("len"))
-    return "violation", "C16/trace-rejected/%s@%s/exit=%s" % (e.get("ev"), e.get("g", "-"), context(ev, idx)), \
+    return "violation", "%s/trace-rejected/%s@%s/exit=%s" % (pid, e.get("ev"), e.get("g", "-"), context(ev, idx)), \
         "recorded execution is not a behaviour of the model: first unexplained event #%s %s" % (idx, json.dumps(e))
 
 
